@@ -334,7 +334,7 @@ func (s pCfgSpec) coq() string {
 		coqBool(s.Timeless), coqBool(s.HasAbort), coqBool(s.FixD5), coqBool(s.FixD6), coqBool(s.FixD9))
 }
 
-func coqNatList(xs []int) string {
+func pCoqNatList(xs []int) string {
 	items := make([]string, len(xs))
 	for i, x := range xs {
 		items[i] = fmt.Sprintf("%d%%nat", x)
@@ -344,5 +344,5 @@ func coqNatList(xs []int) string {
 
 func pCaseTerm(cfg pCfgSpec, terms []string, onceSame, onceFresh, anyVis, bad []int, exact bool) string {
 	return fmt.Sprintf("mkCase %s\n   [%s]\n   %s %s %s %s %s", cfg.coq(), strings.Join(terms, ";\n    "),
-		coqNatList(onceSame), coqNatList(onceFresh), coqNatList(anyVis), coqNatList(bad), coqBool(exact))
+		pCoqNatList(onceSame), pCoqNatList(onceFresh), pCoqNatList(anyVis), pCoqNatList(bad), coqBool(exact))
 }
